@@ -8,8 +8,8 @@ package main
 //     SM3-hash identifier length;
 //   - where clientHelloMsg.unmarshal (re)makes supportedCurves / supportedSignatureAlgorithms
 //     (inside the item loop = F28: only the last item survives);
-//   - dtlcp: which unmarshals start with `if !dtlcpIsCompleteMessage(data, typeX) { return false }`
-//     (repair F18a).
+//   - which unmarshals start with `if !<pkg>IsCompleteMessage(data, typeX) { return false }`
+//     (repairs F18a dtlcp / F18b tlcp).
 // The marshal / unmarshal bodies themselves are transcribed by hand into Gotlcp.Model.Codec*
 // and tied by correspondence; their AST hashes are recorded.
 
@@ -31,6 +31,7 @@ func init() {
 	}
 	extraHashed["dtlcp"] = append(extraHashed["dtlcp"], "helloVerifyRequestMsg.marshal", "helloVerifyRequestMsg.unmarshal",
 		"dtlcpUnmarshalHeader", "dtlcpMarshalHeader", "dtlcpWriteHeader", "dtlcpIsCompleteMessage")
+	extraHashed["tlcp"] = append(extraHashed["tlcp"], "tlcpIsCompleteMessage")
 }
 
 // firstLenCompare finds the first `len(data) <op> X` in the function and evaluates X.
@@ -123,14 +124,15 @@ func makeLoopDepth(p *pkg, key, field string) int {
 }
 
 // startsWithCompleteCheck: the first statement that is not an assignment to m/raw is
-// `if !dtlcpIsCompleteMessage(data, typeX) { return false }`; returns the value of typeX.
+// `if !<pkg>IsCompleteMessage(data, typeX) { return false }`; returns the value of typeX.
 func startsWithCompleteCheck(p *pkg, key string) (int64, bool) {
+	pre := "!" + p.name + "IsCompleteMessage(data, "
 	for _, st := range body(p, key) {
 		if is, ok := st.(*ast.IfStmt); ok {
 			cond := p.src(is.Cond)
-			if strings.HasPrefix(cond, "!dtlcpIsCompleteMessage(data, ") && is.Init == nil && is.Else == nil &&
+			if strings.HasPrefix(cond, pre) && is.Init == nil && is.Else == nil &&
 				len(is.Body.List) == 1 && p.src(is.Body.List[0]) == "return false" {
-				arg := strings.TrimSuffix(strings.TrimPrefix(cond, "!dtlcpIsCompleteMessage(data, "), ")")
+				arg := strings.TrimSuffix(strings.TrimPrefix(cond, pre), ")")
 				return p.constInt(arg)
 			}
 			return 0, false
@@ -199,14 +201,19 @@ func emitCodec(e *emitter, p *pkg) {
 	e.nat("codecCurvesMakeMode", mode("supportedCurves"), hasCH)
 	e.nat("codecSigAlgsMakeMode", mode("supportedSignatureAlgorithms"), hasCH)
 	if p.name == "dtlcp" {
-		var checked []int64
-		for _, t := range append(append([]string{}, codecMsgTypes...), "helloVerifyRequestMsg") {
-			if v, ok := startsWithCompleteCheck(p, t+".unmarshal"); ok {
-				checked = append(checked, v)
-			}
-		}
-		e.natList("codecCompleteChecked", checked, true)
-		_, has := p.funcs["dtlcpIsCompleteMessage"]
-		e.boolean("codecHasCompleteHelper", has)
 	}
+	// unmarshals that start with the complete-message guard (repairs F18a / F18b)
+	types := append([]string{}, codecMsgTypes...)
+	if p.name == "dtlcp" {
+		types = append(types, "helloVerifyRequestMsg")
+	}
+	checked := []int64{}
+	for _, t := range types {
+		if v, ok := startsWithCompleteCheck(p, t+".unmarshal"); ok {
+			checked = append(checked, v)
+		}
+	}
+	e.natList("codecCompleteChecked", checked, true)
+	_, has := p.funcs[p.name+"IsCompleteMessage"]
+	e.boolean("codecHasCompleteHelper", has)
 }
